@@ -2,6 +2,7 @@
 from __future__ import annotations
 
 import io
+import os
 import random
 import sys
 import threading
@@ -210,6 +211,28 @@ def run(ctx):
             if v != obj:
                 fails.append({"what": f"decoding after a failed call (read #{k}) differs", "class": cl.keys[i], "k": k})
                 break
+    # ---------- (2b) a *value* that cannot be encoded (fails after part of the message was staged), then reuse
+    import dataclasses as _dc
+    sys.path.insert(0, os.path.dirname(os.path.abspath(__file__)))
+    from c07 import spoil
+    multi = [i for i in range(len(cl)) if sum(1 for f in _dc.fields(cl.cls(i)) if "tag" in f.metadata) >= 2]
+    for i, a, obj in codec.gen_instances(cl, multi[: (len(multi) if thorough else 12)], 3, rng, big_strings=False):
+        c = cl.cls(i)
+        clear_caches()
+        w = entity_writer(c)
+        b0 = io.BytesIO(); w(b0, obj)
+        bad = spoil(obj, rng)
+        if bad is None:
+            continue
+        evals += 1
+        try:
+            w(io.BytesIO(), bad)
+        except Exception:  # noqa: BLE001
+            nontrivial += 1
+        b1 = io.BytesIO(); w(b1, obj)
+        if b1.getvalue() != b0.getvalue():
+            fails.append({"what": "encoding after a failed call (unencodable value) differs", "class": cl.keys[i],
+                          "value": values.render(a)[:2000]})
     # ---------- (3) threads: cold-cache creation and use under a deterministic scheduler ------------
     scen = []
     def pick(key):
